@@ -623,3 +623,23 @@ pub fn run(ctx: &mut Ctx) {
         }
     }
 }
+
+/// `C05_BIG="<program>" h-c05`: run one BigUint program (replay / debugging).
+pub fn single(prog: &str) {
+    let ops: Vec<Op> = prog
+        .split(" ; ")
+        .map(|t| {
+            let mut w = t.split_whitespace();
+            let name: &'static str = Box::leak(w.next().unwrap().to_string().into_boxed_str());
+            Op { name, args: w.map(|x| x.to_string()).collect() }
+        })
+        .collect();
+    let r = reference(&ops);
+    let run = mock(&ops, &r.public);
+    println!("reference sat: {}", r.sat);
+    println!("verdict: {:?}", run.verdict);
+    for (i, o) in run.outcome.outs.iter().enumerate() {
+        println!("  op {i} [{} {}] -> {o}", ops[i].name, ops[i].args.join(" "));
+    }
+    println!("stopped: {:?} {:?}", run.outcome.stopped, run.outcome.error);
+}
